@@ -7,12 +7,31 @@ TB = ("Trusted: Coq 8.16.1 kernel/coqc (no native_compute), no axioms (Print Ass
       "extraction + OCaml runner, tools/gen_tables.py, the hand-written model coq/Model/*.v tied to the code only by the "
       "differential correspondence check (Rust driver, Python generators/oracles); user closures pure and total.")
 
+DIFF = (" The model is tied to /repo on every run by regenerating the can_catch/exit_code tables from src/error.rs and by a "
+        "differential run of the extracted model against the real library (Rust driver over the public API, real construct!) "
+        "on generated cases under the property's projection; a property-specific oracle on the implementation's outputs "
+        "alone searches for a concrete failing input.")
+
 CHECKS = {
- "C05": ("proof", "Theorems in coq/Props/C05.v about the executable model of the parsing core (run_subparser returns a value "
-         "only when no live item remains in scope; ledger invariants); model tied to /repo by a differential run of the "
-         "extracted model against the real library on generated definitions x sentences x single-item insertions, plus an "
-         "implementation-only metamorphic oracle (an undeclared item inserted into an accepted line must fail).",
-         "4/C05", "Rocq proof over a hand-written model + differential correspondence + metamorphic oracle"),
+ "C02": ("proof", "Theorems in coq/Props/C02.v, for all byte strings: split_os_argument laws for --n=v, --n, -c=v, -c, -cv=w (value = "
+         "every byte after the name / first `=`), cluster law (-abc = -a -b -c), tokens computed item by item, take_arg "
+         "treats separated and attached values alike and returns the token bytes, byte-exact conversion for OsString/PathBuf/"
+         "String; the multibyte `-ж=v` failure is proved as a _refuted witness (known finding). Whole-run respelling "
+         "invariance is partial: decided by the metamorphic oracle (every occurrence respelled into every admissible "
+         "spelling, clusters) and the differential run." + DIFF,
+         "4/C02", "Rocq proof (tokenizer/leaf laws) over a hand-written model + differential correspondence + respelling oracle"),
+ "C05": ("proof", "Theorems in coq/Props/C05.v, for EVERY parser of the model AST (all combinators, any nesting, `any` included): "
+         "if run_subparser / run_inner yields a value then the ghost consumption log is a duplicate-free cover of all items, "
+         "each claimed by a consumer of the parser that accepts that token (C05_exactly_once, C05_run_inner), hence an item no "
+         "consumer accepts always makes the run fail (C05_foreign_item). Proved by mutual induction over parser/plist/oparser "
+         "(Reach, Ledger, NoLoss)." + DIFF,
+         "4/C05", "Rocq proof (ledger invariant by mutual induction) over a hand-written model + differential correspondence + insertion oracle"),
+ "C09": ("proof", "Theorems in coq/Props/C09.v: tokens of pre ++ [--] ++ post (every later item a verbatim PosWord, the separator "
+         "pre-consumed); a PosWord is accepted by positional consumers only; in any run that yields a value every item right "
+         "of `--` was claimed by a positional consumer and the separator by the tokenizer alone (from the C05 ledger theorem); "
+         "strict/non-strict positionals return only right/left tokens, StrictPos final, NonStrictPos catchable (regenerated "
+         "table); `--name --` is NoArgument." + DIFF,
+         "4/C09", "Rocq proof (tokenizer law + ledger corollary) over a hand-written model + differential correspondence + opacity oracle"),
 }
 
 NA_REASON = "check not built yet in this revision (machinery under construction; see DESIGN.md section 7 staging)"
